@@ -17,12 +17,12 @@ import (
 type prop struct {
 	level string
 	run   func(*ev.Run)
-	child func(args []string) int
+	child func(r *ev.Run, args []string)
 }
 
 var props = map[string]prop{}
 
-func register(id, level string, run func(*ev.Run), child func([]string) int) {
+func register(id, level string, run func(*ev.Run), child func(*ev.Run, []string)) {
 	props[id] = prop{level, run, child}
 }
 
@@ -70,7 +70,19 @@ func main() {
 		if p.child == nil {
 			os.Exit(2)
 		}
-		os.Exit(p.child(os.Args[3:]))
+		args := os.Args[3:]
+		res := args[len(args)-1]
+		tier := os.Getenv("VERIF_TIER")
+		if tier == "" {
+			tier = "quick"
+		}
+		r := ev.New(os.Args[2], tier, p.level)
+		p.child(r, args[:len(args)-1])
+		if err := r.DumpTo(res); err != nil {
+			fmt.Fprintln(os.Stderr, "dump:", err)
+			os.Exit(2)
+		}
+		os.Exit(0)
 	}
 	os.Exit(2)
 }
